@@ -348,8 +348,17 @@ func NewJoinRuleContentFromAuthEvents(authEvents AuthEventProvider) (c JoinRuleC
 		return
 	}
 	if err = json.Unmarshal(joinRulesEvent.Content(), &c); err != nil {
-		err = errorf("unparseable join_rules event content: %s", err.Error())
-		return
+		// The auth rules only read join_rule. A content whose other members (allow)
+		// do not have the expected shape still says what the join rule is.
+		joinRule := struct {
+			JoinRule string `json:"join_rule"`
+		}{JoinRule: spec.Invite}
+		if partialErr := json.Unmarshal(joinRulesEvent.Content(), &joinRule); partialErr != nil {
+			err = errorf("unparseable join_rules event content: %s", err.Error())
+			return
+		}
+		c.JoinRule = joinRule.JoinRule
+		err = nil
 	}
 	return
 }
